@@ -40,12 +40,12 @@ harness!(hamming_len_0_1_2, 5, {
     hamming_case::<2>();
 });
 
-// @harness props=C35 tier=thorough timeout=1800 need_cover=0 desc="same, length 129 (two chunks + tail)"
+// @harness props=C35 tier=thorough timeout=900 need_cover=0 desc="(attempted; did not finish in 1800 s) same, length 129 (two chunks + tail)"
 harness!(hamming_len_129, 131, {
     hamming_case::<129>();
 });
 
-// @harness props=C35 tier=thorough timeout=1800 need_cover=0 desc="same, length 128 and 127"
+// @harness props=C35 tier=thorough timeout=900 need_cover=0 desc="(attempted; did not finish in 1800 s) same, length 128 and 127"
 harness!(hamming_len_128_127, 131, {
     hamming_case::<128>();
     hamming_case::<127>();
